@@ -1,0 +1,16 @@
+//go:build verif
+// +build verif
+
+package gps
+
+import "time"
+
+// VerifLeapTable returns a copy of the unexported GPS epoch and leap-second table for the /verif checks.
+// This file is only compiled with the build tag "verif"; it adds no behaviour.
+func VerifLeapTable() (epoch time.Time, times []time.Time, durations []time.Duration) {
+	for _, ls := range leapSecondsTable {
+		times = append(times, ls.Time)
+		durations = append(durations, ls.Duration)
+	}
+	return gpsEpochTime, times, durations
+}
